@@ -1,4 +1,5 @@
-import ProcSim.Lemmas.Termination
+import ProcSim.Lemmas.TerminationBridge
+import ProcSim.Props.C02
 /-!
 # C08 — the simulation always ends; a stall error means genuine dead-lock
 
@@ -13,7 +14,12 @@ diagram up to that frozen cycle."
   instruction = `0` before issue, `3·pos(unit) + 1/2/3` while hosted with label `D/U/S` (`pos` increases along every
   connection), `3·|units| + 1` once retired; no rank ever decreases, and in a productive cycle (new record ≠ old
   record as per-unit multisets) some rank strictly increases.
-* `C08_outcome`, `C08_no_noUnit_badIndex`, `C08_no_fault_of_queue_ok` — which outcomes are possible.
+* `C08_outcome`, `C08_no_noUnit_badIndex`, `C08_no_fault_of_queue_ok` — which outcomes are possible; with the
+  register-queue invariant of `Lemmas/Hazards.lean` (`Hazards.no_queue_fault`): `C08_no_fault`.
+* `C08_genuine_deadlock` — the whole checker `Spec.C08` (bound, stall ⇒ frozen, no earlier frozen row) for every
+  diagram; the clauses about data-stalled instructions come from C02 (`Hazards.stalled_D_mustWait`,
+  `C02_data_stall_exact`), everything else from `Lemmas/Termination.lean`. Hypothesis on programs inherited from C02:
+  `Hazards.ProgOK prog` (source tuples are duplicate-free, as `HwInstruction.sources` always is).
 -/
 namespace ProcSim
 open Spec Term
@@ -108,8 +114,9 @@ stalls, register-queue invariant — `Lemmas/Hazards.lean`). It enters as an exp
 
 Everything else — no `U` in a frozen row, `S` blocked by full successors (memory can not be the reason: nothing
 entered anywhere), not at the output boundary, the next instruction fits no input port, and conversely — is proved
-here. FULL STATEMENT (still open only in the two `D` hypotheses):
-`wfProc p = true → Diagram p prog tbl stalled → (Spec.C08 (ctx p prog tbl stalled)).ok = true`. -/
+here. The theorems named `…_partial` are relative to these two hypotheses; `C08_stall_frozen`, `C08_no_earlier_frozen`
+and `C08_genuine_deadlock` below discharge them from `Lemmas/Hazards.lean` / `Props/C02.lean` (which need
+`Hazards.ProgOK prog`). -/
 
 /-- **The `D` clause of "stall ⇒ frozen".** When the cycle run from a reachable state `s` reproduces its record (the
 stall error) and the register queues label a data-stalled instruction `D` again, the diagram `s.table.reverse` says
@@ -185,6 +192,41 @@ theorem C08_frozenRec_stalls (p : Proc N) (prog : List (Instr N)) (hwf : wfProc 
   rw [frozen_fixed hwf (hs.termInv hwf) hlab hf] at hb
   cases hb
 
+/-! ## The unconditional statements (register-queue invariant from `Lemmas/Hazards.lean`, C02 from `Props/C02.lean`) -/
+
+/-- **C08, no exception other than the stall error.** For a well-formed processor and a program with duplicate-free
+source tuples the run returns a diagram or raises the stall error. -/
+theorem C08_no_fault (p : Proc N) (prog : List (Instr N)) (hwf : wfProc p = true) (hprog : Hazards.ProgOK prog) :
+    ∃ tbl, simulate p prog = .done tbl ∨ simulate p prog = .stall tbl :=
+  C08_no_fault_of_queue_ok p prog hwf (Hazards.no_queue_fault hwf hprog)
+
+/-- the `D` clause of "stall ⇒ frozen" holds -/
+theorem C08_frozen_D_clause (p : Proc N) (prog : List (Instr N)) (hwf : wfProc p = true)
+    (hprog : Hazards.ProgOK prog) : frozen_D_clause p prog :=
+  frozenDClause_holds hwf hprog
+
+/-- **C08, clause 2.** A stall error is raised only from a frozen cycle. -/
+theorem C08_stall_frozen (p : Proc N) (prog : List (Instr N)) (tbl : List (Util N)) (stalled : Bool)
+    (hwf : wfProc p = true) (hprog : Hazards.ProgOK prog) (h : Diagram p prog tbl stalled) :
+    ((Spec.C08 (ctx p prog tbl stalled)).getD 1 ("", false)).2 = true :=
+  C08_stall_frozen_partial p prog tbl stalled hwf (C08_frozen_D_clause p prog hwf hprog) h
+
+/-- **C08, clause 3.** No earlier recorded cycle was frozen. -/
+theorem C08_no_earlier_frozen (p : Proc N) (prog : List (Instr N)) (tbl : List (Util N)) (stalled : Bool)
+    (hwf : wfProc p = true) (hprog : Hazards.ProgOK prog) (h : Diagram p prog tbl stalled) :
+    ((Spec.C08 (ctx p prog tbl stalled)).getD 2 ("", false)).2 = true :=
+  C08_no_earlier_frozen_partial p prog tbl stalled hwf (C02_data_stall_exact p prog tbl stalled hwf hprog h) h
+
+/-- **C08.** For a well-formed processor and a program with duplicate-free source tuples, every diagram `simulate`
+hands out — returned, or carried by the stall error — passes the C08 checker: it has at most
+`instructions × (3 × units + 1) + 1` rows (one less if stalled), a stall diagram ends in a frozen row, and no
+recorded cycle started from a frozen row. -/
+theorem C08_genuine_deadlock (p : Proc N) (prog : List (Instr N)) (tbl : List (Util N)) (stalled : Bool)
+    (hwf : wfProc p = true) (hprog : Hazards.ProgOK prog) (h : Diagram p prog tbl stalled) :
+    (Spec.C08 (ctx p prog tbl stalled)).ok = true :=
+  C08_partial p prog tbl stalled hwf (C08_frozen_D_clause p prog hwf hprog)
+    (C02_data_stall_exact p prog tbl stalled hwf hprog h) h
+
 /-! ## Non-vacuity
 
 Input port `0` (width 1, capabilities `7` and `8`, both locks) feeding output port `1` (width 1, capability `7`).
@@ -238,6 +280,16 @@ example : (match simulate proc prog with
         (tbl.getD 2 ([] : List (Nat × List HI))).get 1 == [⟨0, .S⟩] &&
         (Spec.C08 (ctx proc prog tbl true)).ok && (Spec.C02 (ctx proc prog tbl true)).ok
     | _ => false) = true := by decide
+
+/-- the hypotheses of `C08_genuine_deadlock` are satisfiable and the theorem applies to this stall diagram -/
+example : ∃ tbl, Diagram proc prog tbl true ∧ (Spec.C08 (ctx proc prog tbl true)).ok = true := by
+  have hk : C08Example.kind (simulate proc prog) = (1, 3) := by decide
+  cases h : simulate proc prog with
+  | stall tbl =>
+    exact ⟨tbl, Or.inr ⟨rfl, h⟩,
+      C08_genuine_deadlock proc prog tbl true (by decide) ((Hazards.progOK_iff prog).1 (by decide)) (Or.inr ⟨rfl, h⟩)⟩
+  | done tbl => rw [h] at hk; cases hk
+  | fault f => rw [h] at hk; cases hk
 
 end C08Example2
 
